@@ -128,7 +128,7 @@ pub fn follow_one_head(
             let keep = may_keep_auth(policy, original, &target);
             let inherited: Vec<(String, Vec<u8>)> = orig_in_map_order(cfg)
                 .into_iter()
-                .filter(|(n, _)| n != "cookie" && n != "content-length" && (keep || n != "authorization"))
+                .filter(|(n, _)| n != "cookie" && n != "content-length" && n != "transfer-encoding" && (keep || n != "authorization"))
                 .collect();
             Ok((head_bytes, Followed::Next(
                 nf,
